@@ -17,9 +17,9 @@ mechanism state `St` (nothing is stored, nothing consults it):
   oldest entry – the intrinsic height that makes the soundness induction well-founded);
 * **the graphs abstract the traces** – the trace graph has an edge from every recorded cached
   callee, at any nesting depth below uncached frames, to the element (the `idx` rule), and an
-  edge from the object node of every uncached callee; the reference graph has `(r, n)` for
-  every recorded attribute-path read of an existing reference, including those made inside
-  uncached callees.
+  edge from the object node of every uncached callee – and NO OTHER edge into the element
+  (`Cert.just`); the reference graph has `(r, n)` for every recorded attribute-path read of an
+  existing reference, including those made inside uncached callees.
 -/
 namespace MxModel.Exec
 
@@ -173,11 +173,24 @@ def EvOK (env : Env) (s : St) (n : Node) : FEv → Prop
       (GNode.elem m, GNode.elem n) ∈ s.ge
   | .ucall m => (GNode.obj m.1, GNode.elem n) ∈ s.ge
 
+/-- the graph source `a` is one of the recorded calls: a cached callee, or the object node of an
+uncached callee -/
+def JustE (evs : List FEv) (a : GNode) : Prop :=
+  (∃ m w, a = .elem m ∧ FEv.call m w ∈ evs) ∨ (∃ m, a = .obj m.1 ∧ FEv.ucall m ∈ evs)
+
+theorem JustE.mono {evs evs' : List FEv} {a : GNode} (h : ∀ ev ∈ evs, ev ∈ evs') (j : JustE evs a) :
+    JustE evs' a := by
+  rcases j with ⟨m, w, ha, hm⟩ | ⟨m, ha, hm⟩
+  · exact Or.inl ⟨m, w, ha, h _ hm⟩
+  · exact Or.inr ⟨m, ha, h _ hm⟩
+
 /-- `tr` certifies the value `v` held by `n` -/
 structure Cert (env : Env) (s : St) (n : Node) (v : Val) (tr : Tr) : Prop where
   replay : Replay env tr (env.formula n) v
   noneOK : v = .none → env.allowNone n.1 = true
   events : ∀ ev ∈ flat n.1 tr, EvOK env s n ev
+  /-- conversely: every edge into `n` stems from a recorded call -/
+  just : ∀ a, (a, GNode.elem n) ∈ s.ge → JustE (flat n.1 tr) a
 
 /-- every held computed element has a certificate -/
 def CInv (env : Env) (s : St) : Prop :=
